@@ -271,8 +271,131 @@ struct Case {
     ty: String,
 }
 
-/// Processes one batch; returns the result lines.
-fn run_batch(batch: &[Case], bi: usize, scratch: &Path) -> Vec<Value> {
+thread_local! {
+    static LAST_PANIC: std::cell::RefCell<String> = const { std::cell::RefCell::new(String::new()) };
+}
+/// Culprit searches (bisections of a batch whose compilation panics) still allowed.
+static ISOLATION_BUDGET: std::sync::atomic::AtomicI64 = std::sync::atomic::AtomicI64::new(6);
+
+fn guarded<T>(f: impl FnOnce() -> T) -> Result<T, String> {
+    std::panic::catch_unwind(std::panic::AssertUnwindSafe(f))
+        .map_err(|_| LAST_PANIC.with(|m| m.borrow().chars().take(400).collect::<String>()))
+}
+
+/// Processes one batch.  The compiler itself may panic on a generated unit (e.g. when a mis-folded
+/// constant does not fit its type): the batch is then bisected down to the culprit expression(s), which
+/// are examined alone, unit by unit (`single_case`).  The search is capped; batches beyond the cap are
+/// reported as skipped.
+fn run_batch(batch: &[Case], tag: &str, scratch: &Path) -> Vec<Value> {
+    match guarded(|| try_batch(batch, tag, scratch)) {
+        Ok(v) => v,
+        Err(msg) => {
+            if batch.len() == 1 {
+                return vec![single_case(&batch[0], tag, scratch)];
+            }
+            if ISOLATION_BUDGET.load(std::sync::atomic::Ordering::Relaxed) <= 0 {
+                return batch
+                    .iter()
+                    .map(|c| json!({"id": c.id, "skipped": "compiler panic in this batch; culprit search budget exhausted", "msg": msg}))
+                    .collect();
+            }
+            let (l, r) = batch.split_at(batch.len() / 2);
+            let mut out = run_batch(l, &format!("{tag}l"), scratch);
+            out.extend(run_batch(r, &format!("{tag}r"), scratch));
+            out
+        }
+    }
+}
+
+/// One expression whose batch made the compiler panic: each rendering is compiled on its own so that the
+/// panicking one is identified ({"t":"compile_panic"}).
+fn single_case(c: &Case, tag: &str, scratch: &Path) -> Value {
+    ISOLATION_BUDGET.fetch_sub(1, std::sync::atomic::Ordering::Relaxed);
+    let mut rl = Render::new(Mode::Lit);
+    let lit = rl.expr(&c.e);
+    let mut rp = Render::new(Mode::Param);
+    let par = rp.expr(&c.e);
+    let mut prelude = String::from("use core::num::traits::Pow;\n");
+    for (f, t) in &rl.fns {
+        prelude.push_str(&const_fn_src(f, t));
+    }
+    let params: Vec<String> = rp.params.iter().map(|(n, t, _)| format!("{n}: {t}")).collect();
+    let args: Vec<BigInt> = rp
+        .params
+        .iter()
+        .flat_map(|(_, t, v)| if t.contains("u256") { flat("u256", v) } else { vec![v.clone()] })
+        .collect();
+    let src_b = format!("{prelude}fn b_{}({}) -> {} {{ {par} }}\n", c.id, params.join(", "), c.ty);
+    let src_c = format!("{prelude}fn c_{}() -> {} {{ {lit} }}\n", c.id, c.ty);
+    let unit = |src: &str, name: &str, fname: &str, args: &[BigInt], folding: Folding| -> Value {
+        match guarded(|| compile_runner(&scratch.join(name), &format!("{name}_{tag}"), src, folding).map(|r| run_fn(&r, fname, args))) {
+            Ok(Ok(o)) => outcome_json(&o),
+            Ok(Err(e)) => json!({"t": "error", "msg": format!("does not compile: {}", e.chars().take(500).collect::<String>())}),
+            Err(msg) => json!({"t": "compile_panic", "msg": msg}),
+        }
+    };
+    let b = unit(&src_b, "sb", &format!("b_{}", c.id), &args, Folding::On);
+    let c_on = unit(&src_c, "sc", &format!("c_{}", c.id), &[], Folding::On);
+    let c_off = unit(&src_c, "sc", &format!("c_{}", c.id), &[], Folding::Off);
+    // (a): reuse the batch path on the const item alone (functions cannot disturb it)
+    let a = match guarded(|| const_only(c, &lit, &prelude, tag, scratch)) {
+        Ok(v) => v,
+        Err(msg) => json!({"t": "compile_panic", "msg": msg}),
+    };
+    json!({"id": c.id, "src": lit, "ty": c.ty, "args": args.iter().map(|x| x.to_string()).collect::<Vec<_>>(),
+        "a": a, "b": b, "c_on": c_on, "c_off": c_off, "isolated": true})
+}
+
+fn const_only(c: &Case, lit: &str, prelude: &str, tag: &str, scratch: &Path) -> Value {
+    let src = format!("{prelude}const C_{}: {} = {lit};\n", c.id, c.ty);
+    let mut db = build_db(Folding::On);
+    let (_p, in_a) = setup_source(&mut db, &scratch.join("sa"), &format!("sa_{tag}"), &src);
+    read_consts(&db, &in_a, std::slice::from_ref(c)).pop().unwrap()
+}
+
+/// (a) for every case of a unit: the const's value, or the kind of the diagnostics on the item.
+fn read_consts(db: &RootDatabase, in_a: &[CrateInput], batch: &[Case]) -> Vec<Value> {
+    let mut a_res: Vec<Value> = vec![];
+    let module = module_of(db, in_a);
+    let ids = db.module_constants_ids(module).expect("constants of the batch module");
+    for c in batch {
+        let name = format!("C_{}", c.id);
+        let Some(cid) = ids.iter().find(|i| i.name(db).long(db).as_str() == name) else {
+            a_res.push(json!({"t": "other", "diag": "const item not found"}));
+            continue;
+        };
+        let diags = db.constant_semantic_diagnostics(*cid).get_all();
+        let kinds: Vec<&str> = diags.iter().map(diag_kind).collect();
+        if !kinds.is_empty() {
+            let calc = kinds.iter().find(|k| {
+                ["LiteralError", "FailedConstantCalculation", "DivisionByZero", "Inner:LiteralError",
+                 "Inner:FailedConstantCalculation", "Inner:DivisionByZero"].contains(*k)
+            });
+            if let Some(k) = calc {
+                a_res.push(json!({"t": "fail", "kind": k, "all": kinds}));
+            } else if kinds.contains(&"UnsupportedConstant") {
+                a_res.push(json!({"t": "unsupported", "all": kinds}));
+            } else {
+                let text: Vec<String> = diags.iter().map(|d| format!("{:?}", d.kind).chars().take(200).collect()).collect();
+                a_res.push(json!({"t": "other", "diag": text, "all": kinds}));
+            }
+            continue;
+        }
+        match db.constant_const_value(*cid) {
+            Ok(v) => {
+                let mut cells = vec![];
+                match flatten_const(db, v, &mut cells) {
+                    Ok(()) => a_res.push(json!({"t": "v", "v": cells.iter().map(|x| centre(x).to_string()).collect::<Vec<_>>()})),
+                    Err(e) => a_res.push(json!({"t": "other", "diag": e})),
+                }
+            }
+            Err(_) => a_res.push(json!({"t": "other", "diag": "constant_const_value failed without diagnostics"})),
+        }
+    }
+    a_res
+}
+
+fn try_batch(batch: &[Case], bi: &str, scratch: &Path) -> Vec<Value> {
     let mut consts = String::from("use core::num::traits::Pow;\n");
     let mut funcs = String::from("use core::num::traits::Pow;\n");
     let mut fns: BTreeSet<(String, String)> = BTreeSet::new();
@@ -309,46 +432,7 @@ fn run_batch(batch: &[Case], bi: usize, scratch: &Path) -> Vec<Value> {
     let mut db = build_db(Folding::On);
     let (_p, in_a) = setup_source(&mut db, &scratch.join("a"), &format!("c07a_{bi}"), &consts);
     let (_p, in_b) = setup_source(&mut db, &scratch.join("b"), &format!("c07b_{bi}"), &funcs);
-    let mut a_res: Vec<Value> = vec![];
-    {
-        let module = module_of(&db, &in_a);
-        let ids = db.module_constants_ids(module).expect("constants of the batch module");
-        for c in batch {
-            let name = format!("C_{}", c.id);
-            let Some(cid) = ids.iter().find(|i| i.name(&db).long(&db).as_str() == name) else {
-                let names: Vec<String> = ids.iter().take(3).map(|i| i.name(&db).long(&db).to_string()).collect();
-                a_res.push(json!({"t": "other", "diag": format!("const item not found; module has {} consts {:?}", ids.len(), names)}));
-                continue;
-            };
-            let diags = db.constant_semantic_diagnostics(*cid).get_all();
-            let kinds: Vec<&str> = diags.iter().map(diag_kind).collect();
-            if !kinds.is_empty() {
-                let calc = kinds.iter().find(|k| {
-                    ["LiteralError", "FailedConstantCalculation", "DivisionByZero", "Inner:LiteralError",
-                     "Inner:FailedConstantCalculation", "Inner:DivisionByZero"].contains(*k)
-                });
-                if let Some(k) = calc {
-                    a_res.push(json!({"t": "fail", "kind": k, "all": kinds}));
-                } else if kinds.contains(&"UnsupportedConstant") {
-                    a_res.push(json!({"t": "unsupported", "all": kinds}));
-                } else {
-                    let text: Vec<String> = diags.iter().map(|d| format!("{:?}", d.kind).chars().take(200).collect()).collect();
-                    a_res.push(json!({"t": "other", "diag": text, "all": kinds}));
-                }
-                continue;
-            }
-            match db.constant_const_value(*cid) {
-                Ok(v) => {
-                    let mut cells = vec![];
-                    match flatten_const(&db, v, &mut cells) {
-                        Ok(()) => a_res.push(json!({"t": "v", "v": cells.iter().map(|x| centre(x).to_string()).collect::<Vec<_>>()})),
-                        Err(e) => a_res.push(json!({"t": "other", "diag": e})),
-                    }
-                }
-                Err(_) => a_res.push(json!({"t": "other", "diag": "constant_const_value failed without diagnostics"})),
-            }
-        }
-    }
+    let a_res = read_consts(&db, &in_a, batch);
     let mut errs = String::new();
     let failed = {
         let mut rep = cairo_lang_compiler::diagnostics::DiagnosticsReporter::write_to_string(&mut errs)
@@ -396,7 +480,14 @@ fn main() {
     let t0 = std::time::Instant::now();
     let scratch = Path::new(&a[3]);
     let batches: Vec<&[Case]> = cases.chunks(bs).collect();
-    let results: Vec<Vec<Value>> = batches.par_iter().enumerate().map(|(bi, b)| run_batch(b, bi, scratch)).collect();
+    // compiler panics are caught per batch (see run_batch); keep their message, silence the backtrace
+    std::panic::set_hook(Box::new(|info| {
+        let msg = info.to_string();
+        LAST_PANIC.with(|m| *m.borrow_mut() = msg);
+    }));
+    let results: Vec<Vec<Value>> =
+        batches.par_iter().enumerate().map(|(bi, b)| run_batch(b, &format!("{bi}"), scratch)).collect();
+    let _ = std::panic::take_hook();
     let mut w = NdjsonWriter::create(&a[2]);
     let mut n = 0u64;
     for r in results {
